@@ -186,6 +186,14 @@ func (p *poller) Poll(timeoutMs int) (n int, err error) {
 			continue
 		}
 
+		// EPOLLERR and EPOLLHUP are reported whether or not they were asked for (e.g. EPOLLHUP alone on the read end of
+		// a pipe whose writer is gone). Hand them to whoever is waiting on this slot: the handler's read/write then
+		// observes the end-of-stream or the error. Ignoring them would leave the operation pending forever while
+		// epoll, being level-triggered, keeps reporting the same entry.
+		if events&PollerEvent(syscall.EPOLLERR|syscall.EPOLLHUP) != 0 {
+			events |= slot.Events & (PollerReadEvent | PollerWriteEvent)
+		}
+
 		if events&slot.Events&PollerReadEvent == PollerReadEvent {
 			// TODO this errors should be reported
 			_ = p.DelRead(slot)
